@@ -217,6 +217,8 @@ def check_expired(ck):
                 ok = True
             if isinstance(recv, ast.Subscript) and isinstance(recv.value, ast.Subscript) and q.dotted(recv.value.value) == cont and q.is_const(recv.value.slice, 0) and cont == PUT and q.is_const(recv.slice, _putter_layout(ck)["future"]):
                 ok = True
+        if not ok and any(pol and text.endswith(".done()") for text, pol in facts[nd.id]):
+            raise AnalysisError("%s: the removal is guarded by a done() test on something that is not recognised as the head entry's future" % ce.site(c))
         ck.ob("C35.expired", ce, c, ok and holds(facts[nd.id], cont, True), "only a head entry whose future is done() is discarded")
     ck.ob("C35.expired", ce, ce.node, seen == {GET, PUT}, "_consume_expired purges both waiter queues", construct="purged=%s" % sorted(seen))
     ck.ob("C35.expired", ce, ce.node, not own_settle_sites(ce) and not any(method_call_on(c, "self", "_put", "_get") or "put_internal" in (q.call_attr(c) or "") for c in q.calls(ce.node)), "_consume_expired neither settles futures nor moves items", construct="consume side effects")
